@@ -47,6 +47,7 @@ fn engine() -> Tera {
     tpls.push(("slug".into(), "{{ s | slug }}".into()));
     tpls.push(("json".into(), "{{ v | json_encode }}".into()));
     tpls.push(("jsonp".into(), "{{ v | json_encode(pretty=true) }}".into()));
+    tpls.push(("json2".into(), "{{ v | json_encode | json_encode }}".into()));
     tera.add_raw_templates(tpls).expect("templates");
     tera
 }
@@ -804,6 +805,15 @@ fn run_case(tera: &Tera, c: &Case) -> Outcome {
                     Err(e) => check(false, &|| format!("json_encode ({which}) failed: {e}")),
                 }
             }
+            // the chain `v | json_encode | json_encode`: the second document is the JSON STRING holding
+            // the first one (encoding text that happens to be JSON is still encoding a string)
+            if let Ok(first) = &r {
+                let r2 = render_v(tera, "json2", v);
+                check(r2.as_ref().ok().and_then(|t| parse_json(t)) == Some(J::Str(first.clone())), &|| format!("json_encode(json_encode(v)) does not decode to the first document `{first}`: {}", show(&r2)));
+            }
+            if v.as_str().is_some_and(|t| t.starts_with(['{', '[']) && parse_json(t).is_some()) {
+                tags.push("json.string-holding-a-json-document".into());
+            }
             if collision {
                 tags.push("json.key-text-collision(observation)".into());
             }
@@ -1216,6 +1226,29 @@ fn main() {
         let v = rand_value(&mut rng, d, i % 50 == 0);
         cases.push(Case { op: Op::JsonRead, s: String::new(), v: Some(v.clone()) });
         cases.push(Case { op: Op::Json, s: String::new(), v: Some(v) });
+    }
+    // strings whose whole text is a well-formed JSON document (top level and nested): fixed ones every
+    // seed, and the real encoding of generated values (= the input of a double-encode chain)
+    {
+        let mut texts: Vec<String> = Vec::new();
+        if round == 0 {
+            texts.extend(["[]", "{}", "[1, 2]", "[1,2]", "{\"a\": 1}", "{\"a\":1}", "[[]]", "[\"x\"]", "{\"k\":{\"n\":null}}", "[true,false,null]", " []", "[] ", "[", "{", "[1,]", "{a:1}", "\"s\"", "null", "1", "\"[]\""].iter().map(|t| t.to_string()));
+        }
+        for _ in 0..env.budget(2_000, 8_000) {
+            let d = 1 + rng.below(3);
+            let inner = rand_value(&mut rng, d, false);
+            if let Ok(t) = serde_json::to_string(&inner) {
+                texts.push(t);
+            }
+        }
+        for t in texts {
+            let top = Value::from(t.as_str());
+            cases.push(Case { op: Op::JsonRead, s: String::new(), v: Some(top.clone()) });
+            cases.push(Case { op: Op::Json, s: String::new(), v: Some(top.clone()) });
+            let mut m = tera::Map::new();
+            m.insert(Key::from("doc".to_string()), top.clone());
+            cases.push(Case { op: Op::Json, s: String::new(), v: Some(Value::from(vec![top, Value::from(m)])) });
+        }
     }
     // the key-text collision shape once: {1: "a", "1": "b"} (an observation unless listed in
     // known_findings.json as a known finding of C20 with shape "json-key-text-collision")
